@@ -443,8 +443,9 @@ def rule_adapter_delegations(ctx):
     """The awaitable adapter forwards each call to the wrapped socket's method of the same name (shared C01.h / C11.l):
     `async with AwaitableRSocket(server)` must enter the server's own context - which sends nothing - and not run
     connect(), which every socket inherits and which queues a SETUP frame: a server would then emit SETUP."""
-    from .awaitable import rule_delegations
+    from .awaitable import rule_delegations, rule_collector_no_cancel_after_the_end
     rule_delegations(ctx, 'C01.h')
+    rule_collector_no_cancel_after_the_end(ctx, 'C01.h')
 
 
 def rule_genpub(ctx):
